@@ -596,6 +596,9 @@ mutant('L7-executed-not-published-on-conflict', ['C05'], [
 mutant('L2-mv-guard-live-across-reentrant-access', ['C05'], [
     (S, "            if let Some(mut written_transactions) = self.mv_memory.get_mut(location) &&\n                let Some(entry) = written_transactions.get_mut(&txid)\n            {\n                entry.estimate = true;\n            }", "            if let Some(mut written_transactions) = self.mv_memory.get_mut(location) &&\n                let Some(entry) = written_transactions.get_mut(&txid)\n            {\n                entry.estimate = self.mv_memory.contains_key(location);\n            }"),
 ], ['|L2|'])
+mutant('L2-transaction-lock-held-across-the-handoff-claim', ['C05'], [
+    (S, "            self.scheduler_ctx.rewind_validation_to(txid);\n            drop(tx_state);\n            return self.execution_task(next);", "            self.scheduler_ctx.rewind_validation_to(txid);\n            return self.execution_task(next);"),
+], ['|L2|'])
 
 mutant('N1-timestamp-before-tx-lock', ['C05', 'C02', 'C15'], [
     (S, "        let ts = self.scheduler_ctx.logical_timestamp();\n", ""),
